@@ -8,6 +8,9 @@ import (
 
 	"golang.org/x/tools/go/ssa"
 
+	"go/types"
+
+	"jtverif/internal/absint"
 	"jtverif/internal/report"
 )
 
@@ -58,7 +61,9 @@ func guardedAgainst(fn *ssa.Function, v ssa.Value, c string, b *ssa.BasicBlock) 
 }
 
 func runC19(c *Ctx) {
+	c.E1Rules()
 	R := c.R
+	e1Decided := c.c19ByInterpretation()
 	R.Rules["E7.path"] = "every path handed to a file-creating call in the attachment server is built only from constants, the terminal's BCD phone number, and announced names reduced by filepath.Base (with '.', '..' and the separator rejected before the call)"
 	R.Rules["E7.sinks"] = "the file-creating calls of the attachment package are found (anchor)"
 	passThrough := map[string]bool{"fmt.Sprintf": true, "path/filepath.Join": true, "path.Join": true, "strings.Join": true, "filepath.Join": true, "fmt.Sprint": true}
@@ -82,6 +87,15 @@ func runC19(c *Ctx) {
 				nSinks++
 				key := fmt.Sprintf("%s / %s", shortFn(fn), c.constructOf(fn, call))
 				pos := c.P.RelPos(call.Pos())
+				if v, done := e1Decided[call]; done {
+					// decided by abstract interpretation from the package's entry points (arguments followed through helpers)
+					if v == "" {
+						R.Add("E7.path", key, pos, report.Discharged, "")
+					} else {
+						R.Add("E7.path", key, pos, report.Violated, "the path argument of "+sc.String()+" contains: "+v)
+					}
+					continue
+				}
 				var bad []string
 				var notes []string
 				for _, o := range c.origins(call.Call.Args[idx], passThrough, stopAt) {
@@ -121,4 +135,162 @@ func runC19(c *Ctx) {
 		"only the default FileEventer of the repository is examined; custom implementations are the user's")
 	R.Explain = "Def-use closure (through φ, conversions, Sprintf/Join arguments and returned values of repo functions) of the path argument of every file-creating call in the attachment package; " +
 		"each component must be a constant, the BCD phone number, or filepath.Base of a name with '.', '..' and the separator rejected on every path to the call. Symlink races are not decided."
+}
+
+// c19ByInterpretation decides the sinks by abstract interpretation: every function of the attachment package that
+// can reach a file-creating call and has no caller inside the package is interpreted with arbitrary arguments; at each
+// sink the symbolic path is taken apart (constants, Sprintf / Join / concatenation operands, Base(name) results) and
+// each component must be a constant without "..", the BCD phone of the last terminal message, or a filepath.Base result
+// that the path to the call has compared with ".", ".." and "/" and found different. Returns, per sink call, "" (held)
+// or the reason; sinks not reached by any interpreted entry are absent (the def-use rule below decides them).
+func (c *Ctx) c19ByInterpretation() map[*ssa.Call]string {
+	out := map[*ssa.Call]string{}
+	fns := c.RepoFuncs("attachment")
+	inPkg := map[*ssa.Function]bool{}
+	for _, f := range fns {
+		inPkg[f] = true
+	}
+	callees := map[*ssa.Function][]*ssa.Function{}
+	hasCaller := map[*ssa.Function]bool{}
+	direct := map[*ssa.Function]bool{}
+	for _, f := range fns {
+		for _, b := range f.Blocks {
+			for _, ins := range b.Instrs {
+				ci, ok := ins.(ssa.CallInstruction)
+				if !ok {
+					continue
+				}
+				sc := ci.Common().StaticCallee()
+				if sc == nil {
+					if mc, isMC := ci.Common().Value.(*ssa.MakeClosure); isMC {
+						sc, _ = mc.Fn.(*ssa.Function)
+					}
+				}
+				if sc == nil {
+					continue
+				}
+				if _, isSink := fileSinks[sc.String()]; isSink {
+					direct[f] = true
+				}
+				if inPkg[sc] {
+					callees[f] = append(callees[f], sc)
+					hasCaller[sc] = true
+				}
+			}
+		}
+		for _, an := range f.AnonFuncs {
+			callees[f] = append(callees[f], an)
+			hasCaller[an] = true
+		}
+	}
+	reach := map[*ssa.Function]bool{}
+	var reaches func(f *ssa.Function, seen map[*ssa.Function]bool) bool
+	reaches = func(f *ssa.Function, seen map[*ssa.Function]bool) bool {
+		if direct[f] {
+			return true
+		}
+		if seen[f] {
+			return false
+		}
+		seen[f] = true
+		for _, g := range callees[f] {
+			if reaches(g, seen) {
+				return true
+			}
+		}
+		return false
+	}
+	var entries []*ssa.Function
+	for _, f := range fns {
+		if f.Parent() == nil && !hasCaller[f] && reaches(f, map[*ssa.Function]bool{}) {
+			entries = append(entries, f)
+			reach[f] = true
+		}
+	}
+	if len(entries) == 0 {
+		return out
+	}
+	var names []string
+	for _, e := range entries {
+		names = append(names, shortFn(e))
+	}
+	c.R.Notes["interpreted_entries"] = names
+	type verdict struct{ bad []string }
+	acc := map[*ssa.Call]*verdict{}
+	res := c.RunE1(entries, true, func(a *absint.Analyzer, fn *ssa.Function, st *absint.State, args []absint.Term) {
+		a.NoExternalImpl = func(t types.Type) bool { return true }
+		var classify func(st *absint.State, t absint.Term, depth int) []string
+		classify = func(st *absint.State, t absint.Term, depth int) []string {
+			if ifc, isI := t.(*absint.Iface); isI {
+				t = ifc.Val
+			}
+			s, isS := t.(*absint.Slice)
+			if !isS || depth > 6 {
+				return []string{"a component that is not a string the analysis can take apart (" + a.Render(t) + ")"}
+			}
+			b := s.Base
+			switch {
+			case b.Str != nil:
+				if strings.Contains(*b.Str, "..") {
+					return []string{"constant path component " + *b.Str}
+				}
+				return nil
+			case strings.HasPrefix(b.Op, "sprintf:"):
+				var bad []string
+				if strings.Contains(strings.TrimPrefix(b.Op, "sprintf:"), "..") {
+					bad = append(bad, "format string with ..")
+				}
+				for _, e := range b.Elems {
+					bad = append(bad, classify(st, e, depth+1)...)
+				}
+				return bad
+			case b.Op == "concat" && b.From != nil && b.From2 != nil:
+				return append(classify(st, b.From, depth+1), classify(st, b.From2, depth+1)...)
+			case b.Op == "call:path/filepath.Join" || b.Op == "call:path.Join":
+				var bad []string
+				for _, e := range b.Elems {
+					bad = append(bad, classify(st, e, depth+1)...)
+				}
+				return bad
+			case b.Op == "call:path/filepath.Base" || b.Op == "call:path.Base":
+				var bad []string
+				for _, k := range []string{".", "..", "/"} {
+					if !a.KnownNotEqualStr(st, s, k) {
+						bad = append(bad, fmt.Sprintf("the base name may be %q when the file is created (not rejected on this path)", k))
+					}
+				}
+				return bad
+			}
+			// the BCD phone: a string loaded from a field named TerminalPhoneNo of a jt808 header
+			if strings.HasSuffix(b.Desc, "Header.TerminalPhoneNo") && b.Op == "" && !b.Fresh {
+				return nil
+			}
+			return []string{"unsanitised component " + b.Desc}
+		}
+		a.OnExternal = func(f2 *ssa.Function, site ssa.Instruction, name string, st *absint.State, eargs []absint.Term) {
+			idx, isSink := fileSinks[name]
+			call, isCall := site.(*ssa.Call)
+			if !isSink || !isCall || idx >= len(eargs) {
+				return
+			}
+			bad := classify(st, eargs[idx], 0)
+			c.mu.Lock()
+			v := acc[call]
+			if v == nil {
+				v = &verdict{}
+				acc[call] = v
+			}
+			v.bad = append(v.bad, bad...)
+			c.mu.Unlock()
+		}
+	})
+	for _, r := range res {
+		for _, u := range dedupe(r.Undecided) {
+			c.R.Add("E1.undecided", shortFn(r.Fn)+" / "+u, "", report.Undecided, u)
+		}
+	}
+	for call, v := range acc {
+		out[call] = strings.Join(dedupe(v.bad), "; ")
+	}
+	return out
 }
